@@ -112,7 +112,25 @@ def ccd_monitor(ctx):
                         seen["v0"], seen["final"], seen["circ"] = v0, np.array(iso, copy=True), circ
                         return circ
                     return wrapped
-                with monitors.patched(I, "_ccd", factory):
+                pair_bad = []
+
+                def ufactory(orig):
+                    def uwrapped(iso, basis=0):
+                        out = orig(iso, basis=basis)
+                        ctx.monitor("ccd_pair_gate_contract")
+                        c1, c2 = complex(np.asarray(iso)[0][0]), complex(np.asarray(iso)[1][0])
+                        nrm = float(np.sqrt(abs(c1) ** 2 + abs(c2) ** 2))
+                        if nrm == 0.0:
+                            want = np.eye(2)
+                        else:
+                            p1, p2 = c1 / nrm, c2 / nrm
+                            rows = [[np.conj(p1), np.conj(p2)], [-p2, p1]]      # the gate of C03_ccd_pair_gate (basis = 0)
+                            want = np.array(rows if basis == 0 else rows[::-1])
+                        if np.shape(out) != (2, 2) or np.abs(np.asarray(out) - want).max() > 1e-12:
+                            pair_bad.append(basis)
+                        return out
+                    return uwrapped
+                with monitors.patched(I, "_ccd", factory), monitors.patched(I, "_unitary", ufactory):
                     try:
                         I.decompose(V if m > 0 else V[:, 0], scheme="ccd")
                     except Exception as ex:   # pylint: disable=broad-except
@@ -137,6 +155,10 @@ def ccd_monitor(ctx):
                         bad = "the returned operator does not map the embedding to the isometry although the sweep contract holds"
                 if bad:
                     ctx.mismatch("C03 contract (ccd): " + bad, {"n": n, "m": m, "family": fam})
+                if pair_bad:
+                    ctx.mismatch("C03 contract (ccd): isometry._unitary does not return the gate of C03_ccd_pair_gate "
+                                 "(rows (conj p1, conj p2), (-p2, p1) of the normalised pair; swapped for basis 1; identity for a zero pair)",
+                                 {"n": n, "m": m, "family": fam, "basis": pair_bad[0]})
 
 
 def run(ctx):
@@ -157,7 +179,8 @@ def replay(ctx, case):
 MANIFEST = dict(
     text=("Proof (MODULAR): Knill scheme - product formula prod_i(1+(lam_i-1)E_i) = sum_i lam_i E_i for orthogonal idempotents summing to 1 (C03_knill_product, any field), "
           "each factor as a circuit prepare^-1 ; phase on |0..0> ; prepare = 1 + c|v><v| (C03_knill_factor) and the phase step x layer ; mcp ; x layer (C03_knill_phase); "
-          "column-by-column scheme - closing step: if the sweep reaches embedding x phases, the returned operator maps basis column k to column k of V (C03_ccd_closing); "
+          "column-by-column scheme - the one-qubit gate built from a pair of amplitudes is unitary and maps the pair to (norm, 0), resp. (0, norm) with the rows swapped (C03_ccd_pair_gate, C03_ccd_pair_unitary: the zeroing step of every multiplexer entry; every call of isometry._unitary is compared with that gate), and the "
+          "closing step: if the sweep reaches embedding x phases, the returned operator maps basis column k to column k of V (C03_ccd_closing); "
           "bit-level specifications of the translated index helpers _a/_b/_k_s. Tie: translator (regenerated every run, validated by execution); monitors on every Schur "
           "decomposition used by Knill (unitary basis, diagonal form: the premise numpy eig violated before the repair), on the factor structure of every Knill circuit, and on "
           "every _ccd run (tracked matrix = embedding x phases; returned operator maps the embedding to V). Leading columns of the operator vs the isometry are evaluated for every "
